@@ -1236,6 +1236,10 @@ class MatlabSyntaxError(MatlabError):
     """The statement is not valid MATLAB (e.g. an unterminated / prematurely terminated string)."""
 
 
+class MatlabArithmeticOnText(MatlabError):
+    """'abc' + char(10): MATLAB computes with the character codes; the value is not the text the other outputs carry."""
+
+
 class MatlabUnsupported(MatlabError):
     """Valid-looking MATLAB outside the subset this interpreter knows (harness limitation, not a finding).  Constructs
     that are NOT valid MATLAB raise MatlabSyntaxError / MatlabError / MatlabUndefined instead and are findings."""
@@ -1299,6 +1303,10 @@ class _MParser:
                 return v
             self.i += 1
             w = self.primary()
+            if v["$"] == "str" and v.get("q") != '"' and w["$"] == "str" and w.get("q") != '"':
+                # between two character vectors '+' is ARITHMETIC on the character codes: the result is a numeric array
+                # (or "Arrays have incompatible sizes" when the lengths differ and neither is 1) - never the joined text
+                self.fail("'+' between character vectors adds character codes, it does not join text", MatlabArithmeticOnText)
             if v["$"] != "str" or v.get("q") != '"' or w["$"] != "str":
                 self.fail("'+' other than string scalar + text", MatlabUnsupported)
             v = {"$": "str", "v": v["v"] + w["v"], "q": '"'}
